@@ -221,8 +221,31 @@ def subselect_hides_shared_var(p, top=True):
     return False
 
 
+def needs_no_triples(p):
+    """can the pattern have a solution over an empty graph"""
+    k = p[0]
+    if k == "bgp":
+        return not p[1]
+    if k == "values":
+        return True
+    if k == "join":
+        return needs_no_triples(p[1]) and needs_no_triples(p[2])
+    if k == "union":
+        return needs_no_triples(p[1]) or needs_no_triples(p[2])
+    if k in ("opt", "minus", "bind"):
+        return needs_no_triples(p[1])
+    if k == "filter":
+        return needs_no_triples(p[2])
+    if k == "graph":
+        return needs_no_triples(p[2])
+    if k == "sub":
+        return needs_no_triples(p[3])
+    return False
+
+
 def graph_var_over_values(p):
-    return any(q[0] == "graph" and ref.is_var(q[1]) and contains(q[2], "values") for q in subpatterns(p))
+    """class of known finding C04-graph-var-nonexistent: GRAPH ?g { P } where P can have a solution without any triple (inline data, { })"""
+    return any(q[0] == "graph" and ref.is_var(q[1]) and (contains(q[2], "values") or needs_no_triples(q[2])) for q in subpatterns(p))
 
 
 def opt_with_values_left(p):
